@@ -73,34 +73,3 @@ pub fn chunk_blocks() -> Vec<Artefact> {
     }
     out
 }
-
-/// Era family of an artefact as announced by its file name.
-#[derive(Clone, Copy, Debug, PartialEq, Eq, PartialOrd, Ord)]
-pub enum NameEra {
-    Byron,
-    Shelley,
-    Allegra,
-    Mary,
-    Alonzo,
-    Babbage,
-    Conway,
-}
-
-pub fn era_of_name(name: &str) -> Option<NameEra> {
-    let n = name.to_ascii_lowercase();
-    for (p, e) in [
-        ("byron", NameEra::Byron),
-        ("genesis", NameEra::Byron),
-        ("shelley", NameEra::Shelley),
-        ("allegra", NameEra::Allegra),
-        ("mary", NameEra::Mary),
-        ("alonzo", NameEra::Alonzo),
-        ("babbage", NameEra::Babbage),
-        ("conway", NameEra::Conway),
-    ] {
-        if n.starts_with(p) {
-            return Some(e);
-        }
-    }
-    None
-}
